@@ -476,6 +476,7 @@ def main(argv=None):
     ap.add_argument("--json", action="store_true")
     ap.add_argument("--no-evidence", action="store_true")
     ap.add_argument("--exec-trace", action="store_true")
+    ap.add_argument("--exec-server", action="store_true")
     ap.add_argument("--digests", type=int, default=None)
     ap.add_argument("--props", default=None)
     ap.add_argument("--all", action="store_true")
@@ -497,6 +498,11 @@ def main(argv=None):
         from .selftest import digests_main
 
         return digests_main(prop, a.digests, a.workers or 1)
+    if a.exec_server:
+        from .machines.c19 import exec_server_main
+
+        worker_init()
+        return exec_server_main()
     if a.exec_trace:
         from .machines.c19 import exec_trace_main
 
